@@ -13,8 +13,8 @@ func init() {
 		Decides: "(R38.1) one critical section: Make and PreferEmpty hold the maker's mutex from entry to return, and the lookup/creation helpers are called only from them; " +
 			"(R38.2) lookup before creation: a proposal is made only after the pool was asked for (point, local address, previous block) and answered not-found without an error; a found proposal is handed out unchanged; " +
 			"(R38.3) what is handed out is what was stored: the made proposal is built from the asked point, the local address, the asked previous block and the collected operations, signed with the local key under the maker's network id, stored in the pool, and returned only if signing and storing succeeded; " +
-			"(R38.4) a valid proposal fact has no duplicate operation hash and no duplicate fact hash (both halves of every pair are checked by IsValidProposalFact, which ProposalFact.IsValid runs).",
-		NotDecided: "that the pool's point index still answers after clean-up of old proposals (a re-asked position older than the retention makes a new proposal; Make refuses positions more than one block behind); distinctness of what getOperations collects (C22); several ProposalMaker instances sharing one pool.",
+			"(R38.4) the operations a new proposal lists are collected by the pool's de-duplicating OperationHashes (the rules R22.* of C22 are evaluated here too), and a valid proposal fact has no duplicate operation hash and no duplicate fact hash (both halves of every pair are checked by IsValidProposalFact, which ProposalFact.IsValid runs).",
+		NotDecided: "that the pool's point index still answers after clean-up of old proposals (a re-asked position older than the retention makes a new proposal; Make refuses positions more than one block behind);  several ProposalMaker instances sharing one pool.",
 		Run:        runC38,
 	})
 }
@@ -41,8 +41,12 @@ func runC38(c *Ctx) {
 		}
 		c.Report(fn, m+": the mutex is released only on return", fn.Pos(), unl == 0, fmt.Sprintf("%d explicit unlocks", unl))
 	}
-	c.OnlyIn("call of makeNew / preferEmpty / makeProposal", append(append(c.WhoCalls("(*isaac.ProposalMaker).makeNew"), c.WhoCalls("(*isaac.ProposalMaker).preferEmpty")...), c.WhoCalls("(*isaac.ProposalMaker).makeProposal")...), 4,
-		PM+"Make", PM+"PreferEmpty", PM+"makeNew", PM+"preferEmpty")
+	c.OnlyIn("call of makeNew / preferEmpty", append(c.WhoCalls("(*isaac.ProposalMaker).makeNew"), c.WhoCalls("(*isaac.ProposalMaker).preferEmpty")...), 3,
+		PM+"Make", PM+"PreferEmpty")
+	// a proposal is created only by the two helpers that asked the pool first
+	c.OnlyIn("call of makeProposal", c.WhoCalls("(*isaac.ProposalMaker).makeProposal"), 2, PM+"makeNew", PM+"preferEmpty")
+	// the helpers never release the caller's mutex: only Make and PreferEmpty touch it
+	c.OnlyIn("use of the maker's mutex", c.WhoTouches("ProposalMaker", "l"), 4, PM+"Make", PM+"PreferEmpty")
 	// R38.2 --------------------------------------------------------------------------------------
 	c.Rule("R38.2", "MustPass")
 	for _, m := range []string{"makeNew", "preferEmpty"} {
@@ -126,6 +130,28 @@ func runC38(c *Ctx) {
 			}
 		}
 		c.Report(fn, "the duplicate tests key on the operation hash and on the fact hash", fn.Pos(), halves["hs[0].String()"] && halves["hs[1].String()"], fmt.Sprintf("%v", halves))
+	}
+	// the operations a new proposal lists come from the pool's de-duplicating collector (rules of C22)
+	runC22(c)
+	c.Rule("R38.4", "MustPass")
+	if fn := c.Need("launch.PProposalMaker"); fn != nil {
+		c.ArgIs(fn, "the node's proposal maker collects operations through the wired collector", c.CallsTo(fn, "isaac.NewProposalMaker"), 1, 2, "launch.proposalMakderGetOperationsFunc(pctx)#0")
+	}
+	if parent := c.Need("launch.proposalMakderGetOperationsFunc"); parent != nil {
+		var cl *ssa.Function
+		for _, f := range WithClosures(parent) {
+			if len(c.CallsTo(f, "(*isaac/database.TempPool).OperationHashes")) > 0 {
+				cl = f
+			}
+		}
+		if cl == nil {
+			c.Unresolved(parent, "collector calling the pool's OperationHashes", "not found")
+		} else {
+			for _, r := range Returns(cl) {
+				d := c.D(RetVal(r, 0))
+				c.Report(cl, "the collector hands out what the pool's OperationHashes answered (or nothing)", c.InstrPos(r), d == "nil" || strings.HasPrefix(d, "var:pool.OperationHashes(") || strings.HasPrefix(d, "pool.OperationHashes(") || strings.Contains(d, ".OperationHashes("), d)
+			}
+		}
 	}
 	if fn := c.Need("isaac.(ProposalFact).IsValid"); fn != nil {
 		c.MP(fn, "ProposalFact.IsValid runs the duplicate tests", c.SuccessReturns(fn), 1, GOk("base.IsValidProposalFact(fact)"))
